@@ -30,7 +30,7 @@ def run(ctx, args):
         fe = [ex.submit(ctx.tlc_edges, d, "MC_Proposal.tla", "Gen_Proposal_%s.cfg" % f, timeout=2400, tag="CASE ")
               for f in fams]
         fs = [ex.submit(ctx.tlc_mc, d, "MC_Proposal.tla", "MC_Proposal_%s.cfg" % w, workers=1, timeout=600,
-                        expect_violation=w, count=False) for w in ("RequeueAllBreaks", "ReachRequeued", "ReachOwnedKept")]
+                        expect_violation=w, count=False) for w in ("RequeueAllBreaks", "ReachRequeued", "ReachOwnedKept", "ReachPartialExpires")]
         for f in fs:
             f.result()
         fam_cases = []
@@ -46,7 +46,7 @@ def run(ctx, args):
             ctx.transitions += len(cs)
     ctx.exhaustive = True
     ctx.cov["witnesses_reached"] = ["RequeueAllBreaks (a retry that requeues every transaction violates StepOK)",
-                                    "ReachRequeued", "ReachOwnedKept"]
+                                    "ReachRequeued", "ReachOwnedKept", "ReachPartialExpires"]
     # ---- E1: quick = seeded sample of the two-proposal family; thorough = all of it + a sample of the
     # three-proposal family
     cases = []
